@@ -192,14 +192,15 @@ PROPS = {
     ),
     "C19": dict(
         harness="h_cache", sources=["cache/main.cpp", "cache/cache_shared.cpp", "cache/cache_tls.cpp"], with_lib=False, level="exploration", exhaustive=True,
-        variants=dict(quick=[V("plain", 16)], thorough=[V("plain", 16), V("opt", 16)]),
-        rule="shared variant (Cache.h compiled without SQUIDS_THREAD_LOCAL): for capacity 1..3 (thorough 1..4), prefill 0 or full, every unordered pair of programs over {insert,fetch} with up to 3 (4) "
-             "operations per thread and every triple with up to 2 (3): depth-first enumeration of ALL schedules at hook granularity (every atomic load/CAS, the payload write and the payload read) with "
-             "at most 2 (3) pre-emptions; values are unique ids, judged by conservation over the client-side history plus the final drain. Plus random longer programs under PCT schedules and "
+        variants=dict(quick=[V("plain", 16)], thorough=[V("plain", 16)]),
+        rule="shared variant (Cache.h compiled without SQUIDS_THREAD_LOCAL): for capacity 1..3, prefill 0 or full, every unordered pair of programs over {insert,fetch} with up to 3 (thorough 4) "
+             "operations per thread and every triple with up to 2: depth-first enumeration of the schedules at hook granularity (every atomic load/CAS, the payload write and the payload read) with "
+             "at most 2 pre-emptions for three threads, 3 for two threads and 4 for the longest two-thread programs on small empty caches (thorough: one more each, searches cut short after 4000 "
+             "executions per configuration and counted as cut short; quick exhausts every configuration within its bound); values are unique ids, judged by conservation over the client-side history plus the final drain. Plus random longer programs under PCT schedules and "
              "8-thread real-thread stress runs with random yields at the hooks. Both variants: all insert/fetch sequences up to length 12 (14) for capacity 1..4 against a bounded LIFO model. "
              "distinct_nontrivial = distinct configurations; distinct schedules and final configurations are reported as counters.",
         floors=dict(quick={"executions.enumerated": 200000, "distinct_schedules": 100000, "sequential.shared": 30000, "sequential.thread_local": 30000, "executions.pct": 5000, "operations.stress": 5000000, "configs.exhausted_within_bound": 800},
-                    thorough={"executions.enumerated": 5000000}),
+                    thorough={"executions.enumerated": 3000000}),
         assumptions=["schedules are enumerated at hook granularity on x86-TSO; weaker-memory reorderings are not explored", "data races in the C++ memory-model sense on the `next` fields are not judged (the algorithm validates optimistic reads by CAS)"],
     ),
     "C18": dict(
